@@ -147,3 +147,13 @@ Qed.
 
 Lemma hello_example_ok : hello_ok [HBitmap [18]; HOther 7 [xaa; xbb]; HBitmap [1; 2]; HBitmap []; HOther 0 []] = true.
 Proof. vm_compute. reflexivity. Qed.
+
+(* conformant frames the decoders refuse (known findings D49, D50), by computation *)
+Lemma short_packet_in_refused :
+  parse_top ([x04; x0a; x00; x32; x00; x00; x00; x01] ++ [xff; xff; xff; xff; x00; x08; x00; x00] ++ zeros 8
+             ++ [x00; x01; x00; x0c; x80; x00; x00; x04; x00; x00; x00; x07; x00; x00; x00; x00] ++ zeros 2
+             ++ [x01; x02; x03; x04; x05; x06; x07; x08]) = Err.
+Proof. vm_compute. reflexivity. Qed.
+Lemma port_desc_reply_refused :
+  parse_top ([x04; x13; x00; x50; x00; x00; x00; x01] ++ [x00; x0d; x00; x00; x00; x00; x00; x00] ++ zeros 64) = Err.
+Proof. vm_compute. reflexivity. Qed.
